@@ -107,7 +107,14 @@ func StringToInterface(input string, iType ConfigType) (interface{}, error) {
 	case Duration:
 		return time.ParseDuration(input)
 	case Float64:
-		return strconv.ParseFloat(input, 64)
+		v, err := strconv.ParseFloat(input, 64)
+		if err != nil {
+			return nil, err
+		}
+		if math.IsNaN(v) || math.IsInf(v, 0) {
+			return nil, fmt.Errorf("%s is not a finite number", input)
+		}
+		return v, nil
 	case Boolean:
 		return strconv.ParseBool(input)
 	case String:
